@@ -62,16 +62,15 @@ def build():
             sys.exit(2)
 
 def load_known():
+    """finding: property=<id> id=<name> probe=<plan> match=<regex, may contain spaces> :: description"""
     out = []
     p = os.path.join(ROOT, "known_findings.txt")
     if not os.path.exists(p): return out
+    pat = re.compile(r"^finding:\s+property=(\S+)\s+id=(\S+)\s+probe=(\S+)\s+match=(.*?)\s+::\s+(.*)$")
     for line in open(p):
-        line = line.strip()
-        if not line.startswith("finding:"): continue
-        head, _, desc = line.partition("::")
-        kv = dict(x.split("=", 1) for x in head.split()[1:] if "=" in x)
-        kv["desc"] = desc.strip()
-        out.append(kv)
+        m = pat.match(line.strip())
+        if not m: continue
+        out.append({"property": m.group(1), "id": m.group(2), "probe": m.group(3), "match": m.group(4), "desc": m.group(5)})
     return out
 
 def replay(path):
